@@ -317,6 +317,11 @@ def c02_candidates(P, uni):
         v1 = U[o1[0]][0]
         Tb = mk_tx([(oref(o1[0]), K[1])], [(v1 - 50, K[0])])
         _blk(P, [T_over, Tb], 'overspend-hidden-by-other-fee', out, cb_outs=[(sub, M)])
+        # the overspender NOT first: a running balance over the block's transactions would let the fee paid ahead of it cover it
+        _blk(P, [Tb, T_over], 'overspend-after-fee-paying-tx', out, cb_outs=[(sub, M)])
+        _blk(P, [Tb, T_over], 'overspend-after-fee-paying-tx-reward-net', out, cb_outs=[(sub + 49, M)])
+        T_over50 = mk_tx([(o_ref, K[0])], [(v + 50, K[1])])
+        _blk(P, [Tb, T_over50], 'overspend-equal-to-fee-ahead', out, cb_outs=[(sub, M)])
         _blk(P, [T0, Tb], 'two-fees-exact', out, control=True, cb_outs=[(sub + fee + 50, M)])
         # the same output spent by the first and the third transaction, the reward claiming the fees of all three
         T0c = mk_tx([(o_ref, K[0])], [(v - 2 * fee, K[2])])
